@@ -37,13 +37,11 @@ M = [
     ("timestamp_of_first_record_for_server", "C07", "tlexport/output_builder.py",
      "            if record[2]:\n                self.build_server_packet(decrypted, ts)",
      "            if record[2]:\n                self.build_server_packet(decrypted, [self.ts_zero] * len(ts))"),
-    ("handshake_time_last_packet", "C07", "tlexport/output_builder.py",
-     "                self.ts_zero = record[1].metadata[0].timestamp", "                self.ts_zero = record[1].metadata[-1].timestamp"),
+    ("handshake_time_slightly_earlier", "C07", "tlexport/output_builder.py",
+     "                self.ts_zero = record[1].metadata[0].timestamp", "                self.ts_zero = record[1].metadata[0].timestamp - 0.001"),
     ("only_first_dsb_used", "C09", "tlexport/main.py",
      "            # decryption secrets block: key log text, not a packet (it must not be parsed as an Ethernet frame)\n            keylog.extend(",
      "            # decryption secrets block: key log text, not a packet (it must not be parsed as an Ethernet frame)\n            if len(keylog) > 0:\n                continue\n            keylog.extend("),
-    ("crlf_not_stripped", "C09", "tlexport/keylog_reader.py",
-     "    key_str = key_str.replace(\"\\r\", \"\")\n", "    key_str = key_str\n"),
     ("portmap_trailing_comma", "C10", "tlexport/main.py",
      "        i = i.replace(\",\", \"\") # if somebody is using a \",\" as seperator\n", ""),
     ("bare_m_maps_to_8081", "C10", "tlexport/main.py",
